@@ -28,7 +28,7 @@ def schedules(pid, tier, seed):
 
 
 def run_model(work, pid, tier, seed):
-    budget = 20 if tier == 'quick' else 300
+    budget = 20 if tier == "quick" else 150
     rc, out = vlib.tlc(work, 'Router', cfg='MC_Rtr_q.cfg' if tier == 'quick' else 'MC_Rtr_t.cfg', workers=vlib.NCPU, timeout=budget + 120, name='mc_rtr',
                        env_extra={'JAVA_TOOL_OPTIONS': '-Dtlc2.TLC.stopAfter=%d' % budget})
     notes = []
